@@ -1,8 +1,177 @@
-import Hidi
+/-
+  C09 — Configuration parsing is total: error or configuration, never a crash.
+
+  The model separates the third-party decoder (a parameter: its outcome — value, error or panic — is universally
+  quantified) from the repository's own conversion (`Hidi.convert`, `Hidi.loadHidi`), in which every dereference, index and
+  division of the Go code is an explicit case.
+
+  * `C09_convert_total`  : for every decoded structure the conversion yields a configuration or an error — no case reaches
+                           the panic outcome (no nil dereference for any absent optional field, whatever the mapping type);
+  * `C09_parse_total`    : with the deferred `recover` in place, `ParseData` never panics whatever the decoder does;
+  * `C09_hidi_total`     : likewise `LoadHIDIConfig`, including `pool_rate` / `discovery_rate` ≤ 0 (no division by zero);
+  * `C09_guard_needed`   : without the guard a decoder panic does escape (the defect repaired in the repository);
+  * `C09_source_facts`   : both functions install the guard (regenerated from the sources: their bodies start with a
+                           deferred function literal).
+  Not expressible here: the decoder itself (go-toml, ~6 kLoC of reflection) and hangs; both are only exercised (file mutation
+  search with a per-call time limit, labelled as fuzzing in the evidence).
+-/
+import Hidi.Parser
+import Hidi.Gen.Tables
 namespace Hidi.Props.C09
 open Hidi
 
-/-- placeholder obligation replaced by the real theorems below as they are proved -/
-theorem init_not_dead (cfg : Config) : (Dev.init cfg).dead = false := rfl
+theorem convKey_total (v : String) : convKey v ≠ .panic := by
+  unfold convKey
+  simp only []
+  repeat' split
+  all_goals simp
+
+theorem convAnalog_total (a : TAnalog) : convAnalog a ≠ .panic := by
+  unfold convAnalog
+  simp only []
+  repeat' split
+  all_goals simp
+
+theorem convTable_total {α β} (table : List (String × Nat)) (f : α → Outcome β) (hf : ∀ a, f a ≠ .panic)
+    (l : List (String × α)) : convTable table f l ≠ .panic := by
+  induction l with
+  | nil => simp [convTable]
+  | cons p r ih =>
+    obtain ⟨k, v⟩ := p
+    simp only [convTable]
+    split
+    · simp
+    · split
+      · split
+        · simp
+        · simp
+        · rename_i h; exact absurd h ih
+      · simp
+      · rename_i h; exact absurd h (hf v)
+
+theorem convKeysSubs_total (l : List TKeys) : ∀ acc, convKeysSubs l acc ≠ .panic := by
+  induction l with
+  | nil => intro acc; simp [convKeysSubs]
+  | cons k r ih =>
+    intro acc
+    simp only [convKeysSubs]
+    split
+    · exact ih _
+    · simp
+    · rename_i h; exact absurd h (convTable_total _ _ convKey_total _)
+
+theorem convAnalogSubs_total (l : List TAnalogSub) : ∀ acc, convAnalogSubs l acc ≠ .panic := by
+  induction l with
+  | nil => intro acc; simp [convAnalogSubs]
+  | cons a r ih =>
+    intro acc
+    simp only [convAnalogSubs]
+    split
+    · split
+      · exact ih _
+      · simp
+      · rename_i h; exact absurd h (convTable_total _ _ (by intro z; simp) _)
+    · simp
+    · rename_i h; exact absurd h (convTable_total _ _ convAnalog_total _)
+
+theorem convMapping_total (m : TMapping) : convMapping m ≠ .panic := by
+  unfold convMapping
+  split
+  · split
+    · simp
+    · simp
+    · rename_i h; exact absurd h (convAnalogSubs_total _ _)
+  · simp
+  · rename_i h; exact absurd h (convKeysSubs_total _ _)
+
+theorem convMappings_total (l : List TMapping) : convMappings l ≠ .panic := by
+  induction l with
+  | nil => simp [convMappings]
+  | cons m r ih =>
+    simp only [convMappings]
+    split
+    · split
+      · simp
+      · simp
+      · rename_i h; exact absurd h ih
+    · simp
+    · rename_i h; exact absurd h (convMapping_total m)
+
+theorem convExit_total (l : List String) : convExit l ≠ .panic := by
+  induction l with
+  | nil => simp [convExit]
+  | cons k r ih =>
+    simp only [convExit]
+    split
+    · simp
+    · split
+      · simp
+      · simp
+      · rename_i h; exact absurd h ih
+
+/-- **the conversion never crashes**, for every decoded structure -/
+theorem C09_convert_total (t : TomlCfg) : convert t ≠ .panic := by
+  unfold convert
+  split
+  · rename_i h; exact absurd h (convMappings_total _)
+  · simp
+  · split
+    · rename_i h
+      exact absurd h (convTable_total _ _ (by intro s; split <;> simp) _)
+    · simp
+    · split
+      · simp
+      · split
+        · simp
+        · split
+          · rename_i h; exact absurd h (convExit_total _)
+          · simp
+          · simp only []
+            repeat' split
+            all_goals simp
+
+/-- **`ParseData` is total**: whatever the decoder does — value, error or panic — the result is a configuration or an error -/
+theorem C09_parse_total (decoded : Outcome TomlCfg) : parseData decoded true ≠ .panic := by
+  unfold parseData
+  cases decoded with
+  | ok t => exact C09_convert_total t
+  | err => simp
+  | panic => simp
+
+/-- **`LoadHIDIConfig` is total**, including rates that are zero, negative or absent -/
+theorem C09_hidi_total (decoded : Outcome HidiRaw) : loadHidi decoded true ≠ .panic := by
+  unfold loadHidi
+  cases decoded with
+  | err => simp
+  | panic => simp
+  | ok r =>
+    simp only []
+    split
+    · simp
+    · rename_i h
+      have h1 : r.poolRate ≠ 0 := by omega
+      have h2 : r.discoveryRate ≠ 0 := by omega
+      simp [goDiv, h1, h2]
+
+/-- without the guard a decoder panic escapes: the guard is what makes the two theorems above true -/
+theorem C09_guard_needed : parseData (.panic : Outcome TomlCfg) false = .panic ∧ loadHidi .panic false = .panic := ⟨rfl, rfl⟩
+
+/-- both functions install the guard: their first statement is a deferred function literal that calls recover() (regenerated from the sources) -/
+theorem C09_source_facts : Gen.parseDataRecovers = true ∧ Gen.loadHidiRecovers = true := by decide
+
+/-- hence, for the code as it is: -/
+theorem C09_parse_total_now (decoded : Outcome TomlCfg) : parseData decoded Gen.parseDataRecovers ≠ .panic := by
+  rw [C09_source_facts.1]; exact C09_parse_total decoded
+
+theorem C09_hidi_total_now (decoded : Outcome HidiRaw) : loadHidi decoded Gen.loadHidiRecovers ≠ .panic := by
+  rw [C09_source_facts.2]; exact C09_hidi_total decoded
+
+/-! ### non-vacuity: an action axis without `action_negative`, the input that crashed the original code -/
+
+example : convAnalog { typ := "action", cc := none, ccNeg := none, note := none, noteNeg := none, chOff := 0, chOffNeg := 0,
+                       act := some "panic", actNeg := none, flip := false, dzCenter := false } =
+    .ok { kind := .action, cc := 0, ccNeg := 0, note := 0, noteNeg := 0, chOff := 0, chOffNeg := 0, act := .panic,
+          actNeg := .none, flip := false, bidir := false, dzCenter := false } := by decide
+example : loadHidi (.ok ⟨0, 5, 10⟩) true = .err := by decide
 
 end Hidi.Props.C09
